@@ -43,6 +43,14 @@ let register () =
                   ix_max = n_of_string mx; ix_chunks = Stdlib.List.map chunk_of_string (split_on ',' rows) } in
         hex_of_bytes (Index.encode_index i)
     | _ -> "ERR args");
+  (* c04.writeto <cap> <flags> <min> <avg> <max> <rows> -> ok|err <bytes accepted> <n> *)
+  Drv.register "c04.writeto" (fun args -> match args with
+    | [cap; fl; mn; av; mx; rows] ->
+        let i = { Index.ix_flags = n_of_string fl; ix_min = n_of_string mn; ix_avg = n_of_string av;
+                  ix_max = n_of_string mx; ix_chunks = Stdlib.List.map chunk_of_string (split_on ',' rows) } in
+        let ((s', n), ok) = IndexSink.index_write_to i { IndexSink.ws_cap = n_of_string cap; ws_data = [] } in
+        Printf.sprintf "%s %d %s" (if ok then "ok" else "err") (Stdlib.List.length s'.IndexSink.ws_data) (string_of_n n)
+    | _ -> "ERR args");
   Drv.register "c04.decode" (fun args -> match args with
     | [d; h] ->
         let b = bytes_of_hex h in
